@@ -336,11 +336,12 @@ theorem pushGuard_stale {s : Server} {g : Flight} {doc : Doc} (hd : s.findDoc g.
 @[simp] theorem pushedFlight_nil_cp (doc : Doc) (f : Flight) :
     (pushedFlight doc f []).cpAfterPush = f.info.checkpoint f.doc := by simp [pushedFlight, assignSeqs]
 
-/-- a stale sync (not push-only): rejected by the continuity check, or answered `epochMismatch` after
+/-- a stale sync – not push-only, or ANY sync once the epoch comparison precedes the push-only return
+(`cfg.stalePushOnlyRefused`): rejected by the continuity check, or answered `epochMismatch` after
 `CreateChangeInfos` ran with an EMPTY list (it can only set the removed flag of a crafted pack) -/
 theorem pushPull_stale_refused {s : Server} {f : Flight} {doc : Doc}
     (hd : s.findDoc f.doc = some doc) (he : epochDiffers f.info f.doc doc.epoch = true)
-    (hpo : f.pushOnly = false) (hst : f.status = .attached) :
+    (hpo : f.pushOnly = false ∨ s.cfg.stalePushOnlyRefused = true) (hst : f.status = .attached) :
     pushPull s f = (s, .error .invalidClientSeq) ∨
     pushPull s f = (s.setDoc f.doc (pushedDoc doc (stripped f) []), .error .epochMismatch) := by
   cases hcont : seqsContinuous (f.info.checkpoint f.doc).clientSeq ((f.info.checkpoint f.doc).clientSeq + 1) f.pack.changes with
@@ -358,7 +359,10 @@ theorem pushPull_stale_refused {s : Server} {f : Flight} {doc : Doc}
         (s.setDoc f.doc (pushedDoc doc (stripped f) []), .error .epochMismatch) := by
       apply preparePack_reject
       unfold pullPackResp preparePackCore
-      simp [pushedFlight, hpo, he, hst]
+      have hcfg : (s.setDoc f.doc (pushedDoc doc (stripped f) [])).cfg = s.cfg := rfl
+      rcases hpo with hpo | hpo
+      · simp [pushedFlight, hpo, he, hst]
+      · simp [pushedFlight, hcfg, hpo, he, hst]
     unfold pushPull
     simp only [Phase.andThen, e1, e2, e3, e4]
 
@@ -506,12 +510,14 @@ theorem pullPackResp_attached {s : Server} {f : Flight} {r : Resp} (h : pullPack
     simp only [Bool.false_eq_true, if_false] at hr
     split at hr
     · simp at hr
-    · next he =>
-      split at hr
+    · split at hr
       · simp at hr
-      · split at hr
-        · injection hr with hr; subst hr; exact ⟨rfl, rfl, by simpa using he⟩
-        · injection hr with hr; subst hr; simp at hsn
+      · next he =>
+        split at hr
+        · simp at hr
+        · split at hr
+          · injection hr with hr; subst hr; exact ⟨rfl, rfl, by simpa using he⟩
+          · injection hr with hr; subst hr; simp at hsn
   · split at h
     · next hc => rw [hst] at hc; simp at hc
     · simp at h
